@@ -30,7 +30,7 @@ Empty == [x \in {} |-> 0]
 
 Init ==
   /\ i = 1
-  /\ hdr = [a |-> -1, l |-> <<>>, sig |-> "", tr |-> 0]
+  /\ hdr = [a |-> -1, b |-> 0, flag |-> 0, l |-> <<>>, sig |-> "", tr |-> 0]
   /\ nextBid = 0
   /\ sidType = Empty /\ sidSchema = Empty /\ live = Empty
   /\ retired = {} /\ opened = {}
@@ -103,7 +103,7 @@ OnEncode(ev) ==
   IN /\ lastIn' = ev.in
      /\ lastEnc' = ev.oc
      /\ ladder' = <<>>
-     /\ IF ev.oc = "ok" /\ hdr.b # 9
+     /\ IF ev.oc = "ok" /\ hdr.flag = 0          \* hdr.flag = 1: the wire of this stream was not walked
         THEN LET fr == Framing(ev) IN
              /\ nextBid' = nextBid + 1
              /\ sidType' = fr[1][1] /\ sidSchema' = fr[1][2] /\ live' = fr[1][3]
